@@ -574,6 +574,60 @@ let handle_use fields =
     end
   | _ -> raise (Parse "bad use line")
 
+
+(* ---------- family: scope (lexical scoping, C07) ---------- *)
+(* items: d<n> h<n> u<n> g<n> [ ( ]  -> item tree + flat tag list in event order *)
+let parse_items (toks : string list) : Scoping.item list * (char * coq_N) list =
+  let tags = ref [] in
+  let rec go toks acc =
+    match toks with
+    | [] -> (L.rev acc, [])
+    | "]" :: r -> (L.rev acc, r)
+    | ("[" | "(") as b :: r ->
+      let (body, r') = go r [] in
+      go r' (Scoping.IScope (b = "(", body) :: acc)
+    | t :: r ->
+      let c = t.[0] and n = n_of_string (String.sub t 1 (String.length t - 1)) in
+      tags := (c, n) :: !tags;
+      (match c with
+       | 'd' | 'h' -> go r (Scoping.IDecl (n, Types.Void) :: acc)
+       | 'u' | 'g' -> go r (Scoping.IUse n :: acc)
+       | _ -> raise (Parse ("item " ^ t)))
+  in
+  let (its, rest) = go toks [] in
+  if rest <> [] then raise (Parse "unbalanced items");
+  (its, L.rev !tags)
+let handle_scope fields =
+  match fields with
+  | [items; impl; orc] ->
+    let (its, tags) = parse_items (words items) in
+    let input = items in
+    count_case input (L.length tags > 3); sample "scope" input impl;
+    if impl = "PANIC" || impl = "SYNTAX" then relay_oracle "scope" input orc
+    else begin
+      (* the model of SymbolTable run on the compiled operations ... *)
+      let outs = snd (SymTab.run SymTab.init (Scoping.compile_all its)) in
+      let evs = Scoping.evs outs in
+      (* ... must equal the lexical reference (theorem `lexical`; re-checked here as a sanity test) *)
+      if evs <> Scoping.lres_prog its then mismatch "scope" input "model-run" "lexical-reference";
+      if L.length evs <> L.length tags then raise (Parse "event count");
+      let ev_s = Buffer.create 64 and dg_s = Buffer.create 16 in
+      let add b x = if Buffer.length b > 0 then Buffer.add_char b ' '; Buffer.add_string b x in
+      L.iter2 (fun e (c, n) ->
+          let vis = c <> 'h' in
+          (match e with
+           | Scoping.EBound i -> if vis then add ev_s ("B" ^ string_of_n i)
+           | Scoping.EDup -> if vis then add ev_s "D"; add dg_s ("X" ^ string_of_n n)
+           | Scoping.ERes i -> add ev_s ("R" ^ string_of_n i)
+           | Scoping.EUnres -> add ev_s "U"; add dg_s (if c = 'g' then "G" else "V")))
+        evs tags;
+      let m = Buffer.contents ev_s ^ "|" ^ Buffer.contents dg_s in
+      if m <> impl then mismatch "scope" (input ^ " ;; " ^ orc) impl m;
+      if int_of_n (Scoping.open_scopes (Scoping.compile_all its)) <> 1 then mismatch "scope" input "-" "model leaves scopes open";
+      if is_prefix "FAIL" orc then oracle_fail "scope" input orc
+    end
+  | _ -> raise (Parse "bad scope line")
+
 (* ---------- main loop ---------- *)
 let () =
   Array.iter (fun a -> if a = "--nodedupe" then dedupe := false) Sys.argv;
@@ -595,6 +649,7 @@ let () =
              | "semw" -> handle_semw fields
              | "lit" -> handle_lit fields
              | "use" -> handle_use fields
+             | "scope" -> handle_scope fields
              | _ -> raise (Parse ("unknown family " ^ fam)))
           with Parse m -> report "DRIVER-ERROR" [m; line]; incr mismatches)
        | [] -> ()
